@@ -220,4 +220,51 @@ PROPS["C12"] = dict(
     level_note="Trusted: Lean kernel, factgen, badger. `recorded` of a removed duplicate is replaced by its identical predecessor's and is not compared.",
 )
 
+PROPS["C14"] = dict(
+    modules=["Hub.Props.C14"],
+    gens=["store-c14", "c14jobs", "c16p", "c13"],
+    rule=STORE_RULE + "with a restart (close + reopen of the store, dataset manager, namespace manager) after random ops and the complete observable state (catalogue, every listing, "
+         "every feed, lookups, relations, namespace table, deleted-dataset set) compared with the restart-free model; jobs: the scheduler is fed random job definitions, paused/resumed/"
+         "restarted, and the stored definitions, schedules, sync tokens and effective retry delays are compared before and after re-adding; security: acls/clients written, manager reopened "
+         "(c16p); namespaces re-read (c13); non-trivial = at least one restart after a state-changing op",
+    trusted=STORE_TRUST + ["cron scheduling itself (jobrunner) is not modelled; the schedule table is"],
+    assumptions=["a restart is a clean close (crash points are C04's subject)"],
+    level_text="Proof: every in-memory mirror the hub keeps (dataset table, id table, namespace table, deleted-dataset set, job table, security tables) is modelled as a function `load` of the "
+               "stored state, and each mutating operation is proved to keep mirror = load(stored) (mirror_inv for every op sequence) so that a restart — which replaces the mirror by "
+               "load(stored) — is the identity on observable state (restart_identity); regenerated facts tie each mirror's mutation sites to a preceding/following store write. The real hub "
+               "is restarted at random points of generated histories and compared with the restart-free model.",
+    level_note="Trusted: Lean kernel, factgen, badger. The mirror theorem is structural (which mirrors exist and which ops touch them is a regenerated fact, not derived).",
+)
+
+PROPS["C20"] = dict(
+    modules=["Hub.Props.C20"],
+    gens=["store-c20"],
+    rule=STORE_RULE + "with native backups taken at random points (the real BackupManager.DoNativeBackup into a fresh or existing backup directory, incremental since the stored cursor), more "
+         "writes after the backup, and a restore of the backup files into an empty store whose complete observable state is compared with the model's snapshot at the backup instant; "
+         "non-trivial = a backup after at least one write, followed by at least one more write",
+    trusted=STORE_TRUST + ["badger's Stream backup/Load (kv stream with versions) — modelled as an append-only list of (key,value,version) records"],
+    assumptions=["rsync backups copy badger's files while open and are out of scope of the model"],
+    level_text="Proof: the backup file is modelled as an append-only sequence of increments, each holding every key whose version exceeds the previous cursor; restoring all increments in order "
+               "reproduces exactly the snapshot at the last backup (restore_eq_snapshot) for every history and every placement of backups, the cursor never moves backwards (cursor_monotone), and "
+               "a failed increment leaves the cursor unchanged (failed_backup_keeps_cursor). Facts regenerated from backup.go tie the open mode (append), the error checks, the cursor update "
+               "and the file name to the model. The real backup manager is run at random points and the restored store compared with the model's snapshot.",
+    level_note="Trusted: Lean kernel, factgen, badger's backup stream.",
+)
+
+PROPS["C05"] = dict(
+    modules=["Hub.Props.C05"],
+    gens=["c05"],
+    rule="child processes with 4-8 concurrent writers (single-dataset batches, some rejected; two-dataset transactions naming their datasets in both orders and minting new identifiers), "
+         "readers and a dataset creator/deleter, GOMAXPROCS 1/4/16, a watchdog (a hang is a deadlock), then the final state is checked: listing = last feed entry per id = scoped lookup, every "
+         "acknowledged write is in the feed in its client's order, recorded times never decrease along a feed; non-trivial = every run",
+    trusted=["the Go scheduler and sync.Mutex/RWMutex; badger transactions; the interleavings actually sampled"],
+    assumptions=["lock acquisition sites are those found by the fact extractor (a lock taken through a function value or reflection would be missed)"],
+    level_text="Proof: a system in which every thread acquires its locks in ascending rank order and releases them eventually cannot deadlock (ordered_locking_no_deadlock: some thread can always "
+               "step); the lock sequence of every hub operation kind — with transactions sorting the datasets they name — is ascending in the rank dataset-manager < dataset(name) < core < "
+               "id-mutex < namespace (lockseq_ascending_*), and the unsorted transaction order is shown to admit the AB/BA deadlock (abba_deadlocks). Regenerated facts tie the lock sites "
+               "(sorted loop in ExecuteTransaction, locks before commit time, deferred unlocks, leaf locks) to the source. PARTIAL: atomic visibility to concurrent readers is sampled by the "
+               "stress runs, not proved (it is badger's snapshot isolation).",
+    level_note="Trusted: Lean kernel, factgen, Go runtime, badger.",
+)
+
 NOT_YET = {}
